@@ -69,6 +69,9 @@ inductive Act where
   | err (c : Nat) (sel : Option CallKind)     -- the daemon answers an error
   | lose (c : Nat)        -- the daemon drops the pin behind the tracker's back
   | lsFail (on : Bool)    -- from now on the daemon's reads (PinLsCid / PinLs) fail / succeed again
+  | snapList              -- a concurrent RecoverAll reads the pinset NOW (`st.List`) ...
+  | recoverAllRest        -- ... and this is the rest of it, after whatever was scripted in between. Not a recover ROUND in the
+                          -- sense of the second sentence (it overlaps instructions); the first sentence judges its outcome
   | race (d : Act) (i : Act)  -- the daemon answers (`ok` / `err`) while instruction `i` is being issued:
                               -- the two are not ordered
   deriving DecidableEq, Repr
